@@ -31,6 +31,7 @@ type c17Case struct {
 	Big   bool   `json:"big,omitempty"`   // slice size 96 and larger files, so that the goroutine option really splits the work
 	Blocks int   `json:"blocks,omitempty"` // recovery blocks / volumes (default 3)
 	PriorBlocks int `json:"priorblocks,omitempty"` // history inside the process: an unrelated Create with this many blocks ran just before
+	Names int    `json:"names,omitempty"` // 1: directory names that are string prefixes of sibling file names (photos/ and photos.txt, photos/deep/ and photos/deep.bak)
 	Look  bool   `json:"look,omitempty"` // look-alike inputs: every file 17000 bytes with the same first 16 KiB, different tails (slice size 1000)
 	DupK  int    `json:"dupk,omitempty"`  // with Dup: which input is mentioned twice (index into the listed order)
 	DupAt int    `json:"dupat,omitempty"` // with Dup: 0 = the second mention goes to the end of the list; k>0 = it is inserted at position k-1
@@ -39,6 +40,7 @@ type c17Case struct {
 }
 
 var c17Names = []string{"f0", "sub/f1", "f2", "sub/deep/f3"}
+var c17PrefixNames = []string{"photos/f1", "photos.txt", "photos/deep/f3", "photos/deep.bak"}
 var c17Sizes = []int{11, 6, 9, 4}
 var c17BigSizes = []int{300, 96, 200, 50}
 
@@ -120,6 +122,9 @@ func c17CreateIn(c *c17Case, seed int64, r *core.Rec, stale map[string][]byte) (
 	var abs []string
 	for i := 0; i < c.N; i++ {
 		name := c17Names[i]
+		if c.Names == 1 {
+			name = c17PrefixNames[i]
+		}
 		if c.Fmt == "p1" {
 			name = filepath.Base(name) // PAR1 stores base names; keep all files in the set directory
 		}
@@ -302,12 +307,12 @@ func c17Run(ci interface{}, r *core.Rec) {
 		c17RunDup(c, r)
 		return
 	}
-	key := fmt.Sprintf("%s/%d/%v/%v/%d", c.Fmt, c.N, c.Big, c.Look, c.blocks())
+	key := fmt.Sprintf("%s/%d/%v/%v/%d/%d", c.Fmt, c.N, c.Big, c.Look, c.blocks(), c.Names)
 	base, ok := c17Base[key]
 	if !ok {
 		// the baseline comes from the built command, i.e. from a fresh process: a baseline made by a library call in this
 		// worker process would share whatever the process has accumulated with the runs it is compared to
-		b := &c17Case{Fmt: c.Fmt, N: c.N, Perm: 0, G: 1, Cwd: "set", Spell: "rel", Via: "cli", Big: c.Big, Look: c.Look, Blocks: c.Blocks}
+		b := &c17Case{Fmt: c.Fmt, N: c.N, Perm: 0, G: 1, Cwd: "set", Spell: "rel", Via: "cli", Big: c.Big, Look: c.Look, Blocks: c.Blocks, Names: c.Names}
 		var err error
 		base, err = c17Create(b, r.Seed, r)
 		if err != nil {
@@ -414,6 +419,12 @@ func c17Gen(g *core.Gen) {
 					}
 				}
 			}
+			// directory names that are prefixes of sibling file names: every permutation (each file directly after each other)
+			if n >= 2 {
+				for pm := 0; pm < np; pm++ {
+					g.Emit(&c17Case{Fmt: f, N: n, Perm: pm, G: 1 + pm%2, Cwd: cwds[pm%3], Spell: spells[pm%5], Via: "lib", Names: 1})
+				}
+			}
 			// other block counts (several recovery files, a clamped last one), alone and right after an unrelated Create
 			// with yet another block count in the same process
 			for _, b := range []int{5, 6, 7, 9, 12} {
@@ -459,7 +470,7 @@ func init() {
 	core.Register(&core.Prop{
 		ID:    "C17",
 		Level: "model_checking",
-		Rule: "full product on real directories: {PAR2, PAR1} x 1-4 files (PAR2 names in sub-directories) x EVERY permutation of the input list (PAR2) x goroutines 1..8 x working directory {set directory, its parent, an unrelated directory} x path spelling {relative, absolute, ./x, d//x, d/../d/x} for the index path and every input, through the library (the worker chdir()s, one scenario at a time) and through the built par command (g in {1,3}); the same for a set with slice size 96 and multi-slice files x goroutines 1..16 (so that the goroutine option really partitions the shards); repeated runs; block counts {5,6,7,9,12} alone and right after an unrelated Create with {5,6,9,20} blocks in the same process; look-alike inputs (equal length, identical first 16 KiB, different tails) x every permutation x g {1,3}; an input listed twice - every choice of the repeated input x every position of its second mention, and for every pair of spellings of its two mentions x working directory (whatever Create does with a repeated input, the outcome - error or bytes - must equal that of the list with both mentions spelled alike). " +
+		Rule: "full product on real directories: {PAR2, PAR1} x 1-4 files (PAR2 names in sub-directories) x EVERY permutation of the input list (PAR2) x goroutines 1..8 x working directory {set directory, its parent, an unrelated directory} x path spelling {relative, absolute, ./x, d//x, d/../d/x} for the index path and every input, through the library (the worker chdir()s, one scenario at a time) and through the built par command (g in {1,3}); the same for a set with slice size 96 and multi-slice files x goroutines 1..16 (so that the goroutine option really partitions the shards); repeated runs; names in which a directory name is a string prefix of a sibling file name x every permutation; block counts {5,6,7,9,12} alone and right after an unrelated Create with {5,6,9,20} blocks in the same process; look-alike inputs (equal length, identical first 16 KiB, different tails) x every permutation x g {1,3}; an input listed twice - every choice of the repeated input x every position of its second mention, and for every pair of spellings of its two mentions x working directory (whatever Create does with a repeated input, the outcome - error or bytes - must equal that of the list with both mentions spelled alike). " +
 			"Oracle: the set of files written and every byte equal the baseline run (the built command in a fresh process: set directory, relative paths, listed order, g=1). non-trivial = any variation differs from the baseline configuration",
 		Assumptions: []string{"file contents, names relative to the index, slice size and block count are held fixed; everything else varies"},
 		NewCase:     func() interface{} { return &c17Case{} },
